@@ -470,6 +470,14 @@ def _compare_reset(rec, case, vec, refs, ret, seed, agents, spaces_, site):
                 rec.violate("info_slice", "info_differs", site, env=i, agent=a, got=_norm(sl.get(a)), want=_norm(exp[i][1][a]))
             if seed is not None and sl.get(a, {}).get("seed_in") != exp[i][1][a]["seed_in"]:
                 seed_bad += 1
+            if seed is not None and a in sl and "seed_in" in sl.get(a, {}):
+                # WHICH seed sub-env i gets is not part of the statement, THAT a seeded reset reaches it as a seeded reset
+                # is (an environment reset alone with a seed is reproducible, one reset without a seed is not)
+                rec.hit("seeded_reset_checks")
+                if seed == 0:
+                    rec.hit("seeded_reset_checks_with_seed_0")
+                if int(sl[a]["seed_in"]) == -1:
+                    rec.violate("reset_seed", "seeded_reset_reached_the_sub_environment_without_a_seed", site, env=i, agent=a, seed=int(seed))
     if seed_bad:
         rec.hit("(info)seed_routing_differs_from_seed_plus_i", seed_bad)
 
@@ -518,7 +526,7 @@ def _scenario_vec(case, rec, progress):
             if vec.observation_space(a) != batch_space(spaces_[a], N):
                 rec.violate("declared_space", "batched_space_differs_from_batch_of_sub_env_space", "AsyncPettingZooVecEnv.__init__", agent=a)
         phase = "reset"
-        seed0 = case["seed"] % 1009
+        seed0 = case["seed"] % 1009 if case["seed"] % 4 else 0  # the integer 0 is a seed like any other
         ret = vec.reset(seed=seed0)
         phase = "compare"
         _compare_reset(rec, case, vec, refs, ret, seed0, agents, spaces_, VEC_RESET)
